@@ -2487,7 +2487,8 @@ pub fn compile<I: BufRead, O: Write>(
     for i in &args.defines {
         let mut s = i.splitn(2, '=');
         let def = s.next().unwrap();
-        let value = s.next().unwrap_or("1");
+        // As in a #define, the macros already known are expanded in the value
+        let value = context.replace_all(s.next().unwrap_or("1"));
         if !is_macro_name(def) {
             return Err(Error::Configuration {
                 error: format!("Invalid macro name in -D option: {}", def),
